@@ -257,6 +257,43 @@ func C03(c *Ctx) {
 	} else {
 		r.Fatal("rule SingleCharEscape not found in pigeon.go")
 	}
+	// class-specific single-character escapes (CharClassEscape minus the common ones) need their own case in parse():
+	// strconv.UnquoteChar honours its quote argument only for ' and "
+	if cce := ruleExprOfLiteral(root, "CharClassEscape"); cce != nil {
+		pfd := load.FuncDecl(g.Pkg("ast"), "CharClassMatcher", "parse")
+		var own []string
+		for _, l := range nodesOfType(root, cce, "litMatcher") {
+			if v, ok := litField(root, l, "val"); ok && len(v) == 1 && v != "p" {
+				own = append(own, v)
+			}
+		}
+		for _, ch := range own {
+			okCase := false
+			if pfd != nil {
+				ast.Inspect(pfd.Body, func(n ast.Node) bool {
+					cc, ok := n.(*ast.CaseClause)
+					if !ok {
+						return true
+					}
+					for _, e := range cc.List {
+						if nospace(e) == "'"+ch+"'" || nospace(e) == "'\\"+ch+"'" {
+							for _, st := range cc.Body {
+								if as, ok := st.(*ast.AssignStmt); ok && nospace(as.Rhs[0]) == "append(chars,rn)" {
+									okCase = true
+								}
+							}
+						}
+					}
+					return true
+				})
+			}
+			r.Check(okCase, "C03-c", "G.ast.CharClassMatcher.parse:class-escape-\\"+ch, "", "ast/ast.go", "`\\"+ch+"` is decoded to the character itself by a dedicated case",
+				"the grammar accepts the class escape \\"+ch+" but parse() has no case appending that character: it falls to strconv.UnquoteChar, which rejects it and yields U+0000")
+		}
+		if len(own) == 0 {
+			r.Fatal("CharClassEscape: no class-specific escape literal found")
+		}
+	}
 	// digit counts
 	countRefs := func(rule, digit string) int {
 		e := ruleExprOfLiteral(root, rule)
